@@ -1293,6 +1293,13 @@ func checkStandaloneParsesFlagsFirst(c *Ctx, rule string) {
 		if strings.HasSuffix(name, "Var") && len(cc.Args) > 0 {
 			bound[cc.Args[0]] = true
 		}
+		// flag.Bool / flag.String / …: the pointer they return is the variable
+		switch name {
+		case "Bool", "String", "Int", "Int64", "Uint", "Uint64", "Float64", "Duration":
+			if v, ok := in.(ssa.Value); ok {
+				bound[v] = true
+			}
+		}
 	})
 	c.check(len(parses) >= 1 && len(bound) >= 1, rule, "the stand-alone server has flags and parses them", p.Pos(mainFn.Pos()), fmt.Sprintf("%d variables bound, %d calls of flag.Parse", len(bound), len(parses)), "server_standalone.main no longer binds flags or never calls flag.Parse: -R has no effect")
 	gated := false
